@@ -111,6 +111,26 @@ OnFinal(s, e) ==
     ELSE IF e.get_mut # s.nw \/ e.into_inner # s.nw THEN Flag(s, "data_lost")
     ELSE s
 
+\* ---- static (type-level) obligations: who may share a lock, a guard and therefore the payload.
+\* One event per fact: did `is_send::<X>()` / `is_sync::<X>()` / a usage pattern compile against the
+\* real crate.  The tables are the assumptions Mutex.tla / RwLock.tla make (their headers): a Mutex
+\* serialises all accesses, so a payload that may be SENT may be shared through it; read guards of
+\* an RwLock coexist in several threads, so the payload must be Sync; a guard must be dropped by the
+\* thread that acquired it (never Send) and shares the payload by reference (Sync only if T is).
+\* These are also std::sync's bounds (the check verifies each expectation against std as well).
+MustCompile == { "mutex_cell_send", "mutex_cell_sync", "mutex_u32_send_sync", "mutexguard_u32_sync", "mutex_usage",
+                 "mutex_shared_across_threads",
+                 "rwlock_u32_send_sync", "rwlock_cell_send", "rwreadguard_u32_sync", "rwwriteguard_u32_sync",
+                 "rwlock_usage", "rwlock_shared_across_threads" }
+MustNotCompile == { "mutex_rc_sync", "mutex_rc_send", "mutexguard_cell_sync", "mutexguard_send",
+                    "rwlock_cell_sync", "rwlock_rc_send", "rwlock_rc_sync", "rwreadguard_cell_sync", "rwwriteguard_cell_sync",
+                    "rwreadguard_send", "rwwriteguard_send" }
+OnObligation(s, e) ==
+    IF e.fact \in MustNotCompile /\ e.compiles THEN Flag(s, "static_obligation_not_rejected")
+    ELSE IF e.fact \in MustCompile /\ ~e.compiles THEN Flag(s, "static_obligation_not_met")
+    ELSE IF e.fact \notin (MustCompile \cup MustNotCompile) THEN Flag(s, "static_obligation_unknown")
+    ELSE s
+
 Apply(s, e) ==
     CASE e.ev = "call"  -> OnCall(s, e)
       [] e.ev = "ret"   -> OnRet(s, e)
@@ -124,6 +144,7 @@ Apply(s, e) ==
       [] e.ev = "data"  -> OnData(s, e)
       [] e.ev = "panic" -> Flag(s, "panic")
       [] e.ev = "final" -> OnFinal(s, e)
+      [] e.ev = "obl"   -> OnObligation(s, e)
       [] e.ev = "end"   -> OnEnd(s, e)
       [] OTHER -> s
 
